@@ -326,9 +326,10 @@ def sp(rng):
 def parts_text(rng, parts):
     out = ""
     for n, c in parts:
-        if n == "?": tok = "?" + c
+        gap = rng.choice(["", "", "", "", "", " ", "\t"])     # blanks inside the quotes are ignored, also between a multiplier and its code
+        if n == "?": tok = "?" + gap + c
         elif n == 1 and rng.random() < 0.5: tok = c
-        else: tok = "%s%s" % (n, c)
+        else: tok = "%s%s%s" % (n, gap, c)
         out += tok + (" " if rng.random() < 0.5 else "")
         if n != "?" and tok == c and out.rstrip() != out:
             pass
@@ -360,7 +361,7 @@ def stmt_text(rng, st):
         return s
     if k == "struct":
         opt = st[1]
-        o = "" if opt == 1 and rng.random() < 0.7 else ("[no-opt]" if opt == 0 else "[%dnt]" % opt)
+        o = "" if opt == 1 and rng.random() < 0.7 else (rng.choice(["[no-opt]", "[0nt]"]) if opt == 0 else "[%dnt]" % opt)     # [0nt] is the explicit spelling of no-opt
         s = "structure" + (sp(rng) + o if o else "") + sp(rng) + st[2] + sp(rng) + "=" + sp(rng) + (sp(rng) + "+" + sp(rng)).join(st[3]) \
             + sp(rng) + ":" + (sp(rng) + "domain" if st[4] else "") + sp(rng) + note_text(rng, st[5])
         return s
@@ -590,7 +591,8 @@ def den_src(prog, prefix="", anon_start=0):
             "named": {k: v for k, v in named.items() if v},
             "strands": {prefix + k: (v[0], v[1]) for k, v in strands.items()},
             "structs": [(o, prefix + n, tuple(prefix + x for x in ns), s) for (o, n, ns, s) in structs],
-            "kins": kins, "equals": [], "anon_end": ctr[0]}
+            "kins": kins, "equals": [], "anon_end": ctr[0],
+            "zero": sorted(k for k, v in named.items() if not v and not k.startswith(prefix + "_Anon"))}
 
 # ------------------------------------------------------------------ PIL documents (designer side)
 GROUPS = {"A": "A", "T": "T", "C": "C", "G": "G", "R": "AG", "Y": "CT", "W": "AT", "S": "CG", "M": "AC", "K": "GT",
@@ -680,7 +682,12 @@ def gen_pil_doc(rng, struct_ok=False, conflicts=True):
             dp = "+".join(segs)
         else:
             dp = random_structure(rng, [strands[x] for x in names], p_open=sparse)
-        lines.append(["structure", rng.choice([1, 0, 5]), "X%d" % i, names, dp])
+        sname = "X%d" % i
+        taken = {l[2] for l in lines if l[0] == "structure"}
+        if rng.random() < 0.2:      # a structure may carry the name of one of its strands (separate namespaces)
+            sname = rng.choice(names[1:] or names)
+            if sname in taken: sname = "X%d" % i
+        lines.append(["structure", rng.choice([1, 0, 5]), sname, names, dp])
     if struct_ok:
         for n in strands:
             if n not in used:
@@ -1004,7 +1011,8 @@ class SysGen:
                     s = rng.choice(cands)
                 else:
                     s = "w%d" % len(sig_order); sig_order.append(s); sigs[s] = (plen, plen2)
-                (ins if pi < inst["item"]["nin"] else outs).append([s, rng.random() < 0.35])
+                # a port declared with a star is bound with a star more often: the two stars must cancel, at any depth
+                (ins if pi < inst["item"]["nin"] else outs).append([s, rng.random() < (0.6 if pstar else 0.3)])
             comp_stmts.append(["component", inst["name"], inst["templ"], inst["args"], ins, outs])
         item["insts"] = insts
         item["stmts"] = [["import", [[p, ["Some", a] if a != p.split("/")[-1] else None] for p, a in imports]]] + comp_stmts
@@ -1090,6 +1098,26 @@ def add_decoys(gen, rng):
                          ["struct", 1, "Sq", ["Tq"], False, ["ext", [[7, "."]]]]]}
         gen.put({"kind": "comp", "name": name, "params": [], "prog": prog, "nin": 1, "dir": tgt,
                  "ports_fn": (lambda a: [("q", False, 7), ("q", False, 7)])})
+    # cross-kind decoys: a same-named file of the OTHER kind in a later search directory must not win either
+    # (raw files: they are never read on a correct lookup, so they are not items of the generator)
+    sysdirs = {dd for (dd, nm), it in gen.items.items() if it["kind"] == "sys"}     # an importer searches its own directory first
+    for (d, name), item in list(gen.items.items()):
+        if rng.random() > 0.5 or not incs: continue
+        later = [i for i in incs if i != d] if d not in incs else incs[incs.index(d) + 1:]
+        later = [i for i in later if (i, name) not in gen.items and i not in sysdirs]
+        if not later: continue
+        tgt = rng.choice(later)
+        other = ".comp" if item["kind"] == "sys" else ".sys"
+        path = tgt + "/" + name + other
+        if path in gen.files or (tgt + "/" + name + (".sys" if other == ".comp" else ".comp")) in gen.files: continue
+        if other == ".sys":
+            gen.files[path] = "declare system %s: x -> y\n" % name
+            gen.entries.append([path, True, [], [[["x", False]], [["y", False]], []]])
+        else:
+            gen.files[path] = 'declare component %s: q -> q\nsequence q = "7N"\nstrand Tq = q\nstructure Sq = Tq : 7.\n' % name
+            gen.entries.append([path, False, [], [sexp_nums([name, [["q", False, None]], [["q", False, None]]]),
+                                                  sexp_nums([["seq", "q", [["nuc", [[7, "N"]]]], None], ["strand", False, "Tq", [["ref", "q", False]], None],
+                                                             ["struct", 1, "Sq", ["Tq"], False, ["ext", [[7, "."]]]]])]])
 
 def expected_system_den(gen, top, args, ctr0):
     """Specification of the compiled system: every instance under its own path prefix (den_src of the
